@@ -86,13 +86,9 @@ def run_c08stress(chk, pid, runner, tier, seed, workdir, log, only_key):
     os.makedirs(out, exist_ok=True)
     e = chk.env()
     e["GORACE"] = "halt_on_error=0 log_path=%s" % os.path.join(out, "race")
-    try:
-        r = subprocess.run([exe, "-seed", str(seed), "-tier", tier, "-out", out, "-family", fam] + runner.get("args", []),
-                           cwd=workdir, env=e, text=True, stdout=subprocess.PIPE, stderr=subprocess.PIPE,
-                           timeout=3600 if tier == "thorough" else 900)
-        rc, err = r.returncode, r.stderr
-    except subprocess.TimeoutExpired as ex:
-        rc, err = -9, "timeout " + str(ex)
+    r = chk.run([exe, "-seed", str(seed), "-tier", tier, "-out", out, "-family", fam] + runner.get("args", []),
+                cwd=workdir, env=e, timeout=3600 if tier == "thorough" else 900)
+    rc, err = r.returncode, r.stderr
     log.append(("stress %s family %s" % (name, fam), rc, err[-3000:]))
     races = []
     for f in glob.glob(os.path.join(out, "race.*")):
